@@ -182,6 +182,15 @@ func H_C17_real() {
 		}).ErrOnMissingPath(!tolerant)
 		expectErr = path == "missing" && !tolerant || path == "v" && fail
 	}
+	if vxrt.Bool("scalar-document") {
+		// a document that is a bare scalar has no members: every path is missing, the second
+		// matcher (Any on s, which insists on its path) fails whatever the first one does
+		doc = []string{"42", `"text"`, "null"}[vxrt.Choice("scalar", 3)]
+		expectErr = true
+		if path == "v" || tolerant {
+			path, name = "s", "Any"
+		}
+	}
 	standalone := vxrt.Bool("standalone")
 	empty := vxDumpDir(dir)
 	t := vxNewT("TestR")
